@@ -30,6 +30,10 @@ type pair struct {
 	chans [][2]*client.Channel // [k][side]
 	ids   []channel.ID
 	subs  []subInfo
+	// agree[k] is the funding agreement the scenario intended for channel k
+	agree []channel.Balances
+	// watchSide says which sides run Channel.Watch on their channels
+	watchSide [2]bool
 
 	mu      sync.Mutex
 	ops     []*opRec
@@ -73,6 +77,12 @@ func newPair(s *world.Sim) *pair {
 	w.Bus.DropP = float64(sc.Cfg("drop_pm", 0)) / 1000
 	w.Bus.DupP = float64(sc.Cfg("dup_pm", 0)) / 1000
 	p := &pair{s: s, w: w, tokens: map[string]chan struct{}{}}
+	if sc.Cfg("watch", 0) == 1 {
+		p.watchSide = [2]bool{true, true}
+		if adv := sc.Cfg("adv", -1); adv >= 0 {
+			p.watchSide[adv] = false // an adversary does not refute its own registration
+		}
+	}
 	for i, name := range []string{"A", "B"} {
 		p.n[i] = w.AddNode(name, i, nil)
 		for a := 0; a < 3; a++ {
@@ -209,11 +219,16 @@ func (p *pair) open(step int, side int, st *kernel.Step) int {
 	p.mu.Lock()
 	p.chans = append(p.chans, pairCh)
 	p.ids = append(p.ids, ch.ID())
+	if agreement == nil {
+		agreement = alloc.Balances.Clone()
+	}
+	p.agree = append(p.agree, agreement)
 	k := len(p.chans) - 1
 	p.mu.Unlock()
-	if p.s.Sc.Cfg("watch", 0) == 1 {
-		me.Watch(ch)
-		peer.Watch(other)
+	for sd := 0; sd < 2; sd++ {
+		if p.watchSide[sd] {
+			p.n[sd].Watch(pairCh[sd])
+		}
 	}
 	return k
 }
